@@ -575,7 +575,7 @@ type c11Matrix struct {
 	requireReply      bool    // false: degraded configuration, a missing reply is counted, not judged
 	scale             float64 // multiplies the per-pair body counts
 	partitionZeroOnly bool
-	onlyListedKeys    bool // skip the keys the server does not list at all
+	onlyListedKeys    bool           // skip the keys the server does not list at all
 	onlyKeys          map[int16]bool // non-nil: drive only these keys
 	hooks             *c11Hooks
 }
